@@ -106,7 +106,11 @@ var ffiFuncs = map[string]reflect.Value{
 	"os.ReadDir":      rv(os.ReadDir),
 	"os.ReadFile":     rv(os.ReadFile),
 	"os.WriteFile": rv(func(name string, data []byte, perm os.FileMode) error {
-		return errors.New("zsym: os.WriteFile stubbed (no real I/O)")
+		// contract stub: no real I/O; names under /tmp/zsym-w succeed
+		if strings.HasPrefix(name, "/tmp/zsym-w") {
+			return nil
+		}
+		return errors.New("open " + name + ": no such file or directory")
 	}),
 	"os.Getenv":           rv(func(string) string { return "" }),
 	"os.Getpid":           rv(func() int { return 4242 }),
